@@ -257,7 +257,7 @@ fn one_step<const N: usize, const H: usize>() {
 }
 
 // DijkstraDist::distances over every simple digraph with <= 4 arcs on 4 vertices, weights < 16, <= 2 sources.
-// @verif prop=C03 tier=thorough fl=f2 role=distances/sparse t=3600 mem=30
+// @verif prop=C03 tier=exp fl=f2 role=distances/sparse t=3600 mem=30
 #[cfg_attr(kani, kani::proof)]
 #[cfg_attr(kani, kani::unwind(10))]
 pub fn c03_distances_sparse_n4_m4() {
@@ -265,7 +265,7 @@ pub fn c03_distances_sparse_n4_m4() {
 }
 
 // Dijkstra iteration order/uniqueness, <= 4 arcs on 4 vertices.
-// @verif prop=C03 tier=thorough fl=f2 role=iter/sparse t=3600 mem=30
+// @verif prop=C03 tier=exp fl=f2 role=iter/sparse t=3600 mem=30
 #[cfg_attr(kani, kani::proof)]
 #[cfg_attr(kani, kani::unwind(10))]
 pub fn c03_iter_sparse_n4_m4() {
@@ -273,7 +273,7 @@ pub fn c03_iter_sparse_n4_m4() {
 }
 
 // DijkstraDist iteration with exact distances, <= 4 arcs on 4 vertices.
-// @verif prop=C03 tier=thorough fl=f2 role=iter-dist/sparse t=3600 mem=30
+// @verif prop=C03 tier=exp fl=f2 role=iter-dist/sparse t=3600 mem=30
 #[cfg_attr(kani, kani::proof)]
 #[cfg_attr(kani, kani::unwind(10))]
 pub fn c03_iter_dist_sparse_n4_m4() {
@@ -281,7 +281,7 @@ pub fn c03_iter_dist_sparse_n4_m4() {
 }
 
 // The same through AdjacencyListWeighted<usize>, <= 3 arcs on 3 vertices.
-// @verif prop=C03 tier=thorough fl=f2 feat=map4 role=distances/repr t=3600 mem=30
+// @verif prop=C03 tier=exp fl=f2 feat=map4 role=distances/repr t=3600 mem=30
 #[cfg_attr(kani, kani::proof)]
 #[cfg_attr(kani, kani::unwind(10))]
 pub fn c03_distances_repr_n3_m3() {
@@ -296,7 +296,7 @@ pub fn c03_one_step_n3_h3() {
     one_step::<3, 3>();
 }
 
-// @verif prop=C03 tier=thorough fl=f2 role=distances/sparse t=3600 mem=24
+// @verif prop=C03 tier=exp fl=f2 role=distances/sparse t=3600 mem=24
 #[cfg_attr(kani, kani::proof)]
 #[cfg_attr(kani, kani::unwind(11))]
 pub fn c03_distances_sparse_n4_m5() {
@@ -310,7 +310,7 @@ pub fn c03_one_step_n4_h4() {
     one_step::<4, 4>();
 }
 
-// @verif prop=C03 tier=thorough fl=f2 role=distances/sparse t=3600 mem=30
+// @verif prop=C03 tier=exp fl=f2 role=distances/sparse t=3600 mem=30
 #[cfg_attr(kani, kani::proof)]
 #[cfg_attr(kani, kani::unwind(5))]
 pub fn c03_distances_sparse_n3_m3() {
@@ -690,7 +690,7 @@ pub fn c03_plain_step_n3_h3() {
 }
 
 // distances() wrapper, whole run, 2 vertices.
-// @verif prop=C03 tier=thorough fl=f2 role=distances/whole-run-n2 t=3600 mem=30
+// @verif prop=C03 tier=exp fl=f2 role=distances/whole-run-n2 t=3600 mem=30
 #[cfg_attr(kani, kani::proof)]
 #[cfg_attr(kani, kani::unwind(5))]
 pub fn c03_distances_wrapper_n2() {
